@@ -357,6 +357,7 @@ pub fn fir_readd<S: Src>(s: &mut S) {
     assert!(e.ssrc() == ssrc && e.sequence() == s2, "FIR map must carry the last sequence of the SSRC");
     assert!(it.next().is_none());
     vcover!(s1 != s2, "sequence replaced");
+    common::forget(b);
     common::forget(f);
 }
 
